@@ -14,3 +14,46 @@ package keeper
 //@   ensures found: found <==> present(tibc[clientState(chainName)])
 //@   ensures dec:   found ==> cs == types.csDecode(val(tibc[clientState(chainName)])) && cs != nil
 //@   ensures none:  !found ==> cs == nil
+//@
+//@ spec relayersOf(o: opt): obj = pbdec_obj(types.IdentifiedRelayers, 1, optstr(o))
+//@ spec listed(R: obj, r: str): bool = exists i: i64 :: 0 <=s i && i <s seqlen(R) && seqstr(R, i) == r
+//@
+//@ func (Keeper).AuthRelayer(ctx, chainName, relayer) (result)
+//@   props C15
+//@   let R = relayersOf(tibc[relayers(chainName)])
+//@   ensures iff: result <==> listed(R, relayer)
+//@   loop #0 invariant range: -1 <=s rangeindex && rangeindex <s seqlen(R)
+//@   loop #0 invariant none:  forall j: i64 :: 0 <=s j && j <=s rangeindex ==> seqstr(R, j) != relayer
+//@   loop #0 decreases seqlen(R) - 1 - rangeindex
+//@
+//@ func (Keeper).RegisterRelayers(ctx, chainName, relayers)
+//@   props C15
+//@   modifies tibc
+//@   ensures stored: relayersOf(tibc[relayers(chainName)]) == relayers
+//@   ensures frame:  forall k: key :: k != relayers(chainName) ==> tibc[k] == old(tibc)[k]
+//@
+//@ func (Keeper).CreateClient(ctx, chainName, clientState, consensusState) (err)
+//@   props C15
+//@   modifies tibc, events
+//@   ensures frame: forall k: key :: !inClient(k, chainName) && k != clientState(chainName) && !is_consState(k) ==> tibc[k] == old(tibc)[k]
+//@   ensures set:   err == nil ==> present(tibc[consState(chainName, clientState.GetLatestHeight().GetRevisionNumber(), clientState.GetLatestHeight().GetRevisionHeight())])
+//@
+//@ func (Keeper).UpgradeClient(ctx, chainName, upgradedClientState, upgradedConsState) (err)
+//@   props C15
+//@   modifies tibc, events
+//@   ensures exists:   err == nil ==> present(old(tibc)[clientState(chainName)])
+//@   ensures sametype: err == nil ==> upgradedClientState.ClientType() == types.csDecode(val(old(tibc)[clientState(chainName)])).ClientType()
+//@   ensures stored:   err == nil ==> tibc[clientState(chainName)] == some(types.csEncode(upgradedClientState))
+//@   ensures atomic:   err != nil ==> tibc == old(tibc) && events == old(events)
+//@   ensures frame:    forall k: key :: k != clientState(chainName) && !is_consState(k) ==> tibc[k] == old(tibc)[k]
+//@
+//@ func (Keeper).UpdateClient(ctx, chainName, header) (err)
+//@   props C15 C14 C07
+//@   modifies tibc, events
+//@   ensures exists:  err == nil ==> present(old(tibc)[clientState(chainName)])
+//@   ensures active:  err == nil ==> exported.statusOf(types.csDecode(val(old(tibc)[clientState(chainName)])), old(tibc), chainName, now()) == exported.Active
+//@   ensures checked: err == nil ==> called(ClientState.CheckHeaderAndUpdateState) && (forall c in calls(ClientState.CheckHeaderAndUpdateState) :: c.err == nil && c.header == header &&
+//@                       c.self == types.csDecode(val(old(tibc)[clientState(chainName)])) && clientOf(c.store) == chainName)
+//@   ensures inactive.untouched: exported.statusOf(types.csDecode(val(old(tibc)[clientState(chainName)])), old(tibc), chainName, now()) != exported.Active ==>
+//@                       err != nil && tibc == old(tibc) && !called(ClientState.CheckHeaderAndUpdateState)
+//@   ensures frame:   forall k: key :: !inClient(k, chainName) && k != clientState(chainName) && !is_consState(k) ==> tibc[k] == old(tibc)[k]
